@@ -3,6 +3,7 @@
 
     PoolC09Base  reachability is transitive, steps keep the configuration
     PoolC09Fut   FutInv   : future flags / outcome tokens
+    PoolC09Obs   a done future keeps its flag, value and outcome along every run (done() then result())
     PoolC09Lock  LockInv  : exact mutual exclusion of the pool lock (clients and workers)
     PoolC09Stop  StopInv  : the controlling thread's stop() — flag, thread list, join loop
     PoolC09Fifo  TaskFrame, FifoPair : one step = one task event; order of acceptance with a single worker
@@ -10,6 +11,7 @@
     PoolC09Prog  enabledness of worker actions, the variant `progressMeasure`
 -/
 import JRV.Lemmas.PoolC09Fut
+import JRV.Lemmas.PoolC09Obs
 import JRV.Lemmas.PoolC09Lock
 import JRV.Lemmas.PoolC09Stop
 import JRV.Lemmas.PoolC09Fifo
